@@ -660,9 +660,12 @@ fn dump(ex: &mut CommandExecutor) -> Vec<String> {
     }
     out
 }
+fn bulk_key(e: &RespValue) -> Vec<u8> {
+    match e { RespValue::BulkString(Some(b)) => b.clone(), o => format!("{:?}", o).into_bytes() }
+}
 fn sort_arr(r: RespValue) -> RespValue {
     match r {
-        RespValue::Array(Some(mut v)) => { v.sort_by_key(|e| format!("{:?}", e)); RespValue::Array(Some(v)) }
+        RespValue::Array(Some(mut v)) => { v.sort_by_key(bulk_key); RespValue::Array(Some(v)) }
         o => o,
     }
 }
@@ -670,7 +673,7 @@ fn sort_pairs(r: RespValue) -> RespValue {
     match r {
         RespValue::Array(Some(v)) => {
             let mut ps: Vec<Vec<RespValue>> = v.chunks(2).map(|c| c.to_vec()).collect();
-            ps.sort_by_key(|e| format!("{:?}", e));
+            ps.sort_by_key(|e| bulk_key(&e[0]));
             RespValue::Array(Some(ps.into_iter().flatten().collect()))
         }
         o => o,
@@ -730,6 +733,16 @@ fn gen_lua_parts(rng: &mut Rng) -> (Vec<Vec<u8>>, String) {
     }
 }
 const DESCRIBE: &str = r#"
+local function canon(v, mode)
+  if type(v) ~= 'table' or v.err ~= nil or mode == 0 then return v end
+  if mode == 1 then table.sort(v); return v end
+  local ps = {}
+  for i = 1, #v, 2 do ps[#ps + 1] = {v[i], v[i + 1]} end
+  table.sort(ps, function(a, b) return a[1] < b[1] end)
+  local out = {}
+  for _, p in ipairs(ps) do out[#out + 1] = p[1]; out[#out + 1] = p[2] end
+  return out
+end
 local function hx(s) return (s:gsub('.', function(c) return string.format('%02x', c:byte()) end)) end
 local function d(v)
   local t = type(v)
@@ -885,8 +898,12 @@ fn case_l(out: &mut Out, rng: &mut Rng, idx: u64, verbose: bool) {
     };
     // B: through the script; C: what the script saw
     let fname = if use_call { "call" } else { "pcall" };
-    let script_b = format!("return redis.{}(table.unpack(ARGV))", fname);
-    let script_c = format!("{}\nreturn d(redis.pcall(table.unpack(ARGV)))", DESCRIBE);
+    // replies in HashSet/HashMap iteration order are compared sorted (bytewise) on all three paths
+    let uname = String::from_utf8_lossy(&parts[0]).to_uppercase();
+    let mode = if uname == "SMEMBERS" { 1 } else if uname == "HGETALL" { 2 } else { 0 };
+    let direct = direct.map(|r| if mode == 1 { sort_arr(r) } else if mode == 2 { sort_pairs(r) } else { r });
+    let script_b = format!("{}\nreturn canon(redis.{}(table.unpack(ARGV)), {})", DESCRIBE, fname, mode);
+    let script_c = format!("{}\nreturn d(canon(redis.pcall(table.unpack(ARGV)), {}))", DESCRIBE, mode);
     let rb = eval(&mut xb, &script_b, &parts);
     let rc = eval(&mut xc, &script_c, &parts);
     let (rb, rc) = match (rb, rc) { (Ok(b), Ok(c)) => (b, c), _ => { out.count("lua:script-execution-panicked"); out.violation(idx, "EVAL panicked", json!({"parts": parts_show(&parts)})); return; } };
